@@ -21,6 +21,7 @@ package c05
 
 import (
 	"crypto/sha256"
+	"encoding/hex"
 	"fmt"
 	"math/big"
 	"math/rand"
@@ -72,6 +73,16 @@ type env struct {
 	dests   []string
 	base    sdk.Context
 	params  types.Params
+}
+
+// canon maps an external address string of the chain to the canonical form the op and observation lines use: the 0x-hex
+// form of its 20 bytes (42 characters) — the identity for the 0x-address chains, base58check -> hex for tron.  Anything
+// that is not a valid address of the chain is passed through unchanged (and is invalid for the model as well).
+func (e *env) canon(a string) string {
+	if e.chain != "tron" || types.ValidateExternalAddr(e.chain, a) != nil {
+		return a
+	}
+	return "0x" + hex.EncodeToString(types.ExternalAddrToAccAddr(e.chain, a).Bytes())
 }
 
 func detBytes(tag string, i int) []byte {
@@ -236,6 +247,10 @@ func normOp(op string) (w []string, evm bool) {
 		w[0], evm = "bcall", true
 	case "pcancel":
 		w[0], evm = "cancel", true
+	case "pincfee":
+		w[0], evm = "incfee", true
+	case "pexec":
+		w[0], evm = "exec", true
 	}
 	return w, evm
 }
@@ -307,7 +322,7 @@ func (q *seq) txOf(tx *types.OutgoingTransferTx) txRec {
 	if !ok || tx.Fee.Contract != tx.Token.Contract {
 		tk = -1
 	}
-	return txRec{id: int(tx.Id), sender: s, token: tk, dest: tx.DestAddress, amount: tx.Token.Amount.Int64(), fee: tx.Fee.Amount.Int64()}
+	return txRec{id: int(tx.Id), sender: s, token: tk, dest: q.e.canon(tx.DestAddress), amount: tx.Token.Amount.Int64(), fee: tx.Fee.Amount.Int64()}
 }
 
 func (q *seq) snapshot() snap {
@@ -322,7 +337,7 @@ func (q *seq) snapshot() snap {
 		if !ok {
 			tk = -1
 		}
-		br := batchRec{nonce: int(b.BatchNonce), token: tk, timeout: b.BatchTimeout, block: b.Block, fr: b.FeeReceive}
+		br := batchRec{nonce: int(b.BatchNonce), token: tk, timeout: b.BatchTimeout, block: b.Block, fr: q.e.canon(b.FeeReceive)}
 		for _, tx := range b.Transactions {
 			br.txs = append(br.txs, q.txOf(tx))
 		}
@@ -330,7 +345,7 @@ func (q *seq) snapshot() snap {
 	}
 	sort.Slice(sn.batches, func(i, j int) bool { return sn.batches[i].nonce < sn.batches[j].nonce })
 	k.IterateOutgoingBridgeCalls(ctx, func(c *types.OutgoingBridgeCall) bool {
-		cr := callRec{nonce: int(c.Nonce), sender: -1, refund: -1, to: c.To, data: c.Data, memo: c.Memo, timeout: c.Timeout, block: c.BlockHeight}
+		cr := callRec{nonce: int(c.Nonce), sender: -1, refund: -1, to: q.e.canon(c.To), data: c.Data, memo: c.Memo, timeout: c.Timeout, block: c.BlockHeight}
 		if i, ok := q.e.actorOf[c.Sender]; ok {
 			cr.sender = i
 		}
@@ -506,7 +521,7 @@ func (q *seq) opSend(a int, dest string, tk int, amount, fee int64) (string, str
 		}
 		return r.OutgoingTxId, nil
 	})
-	return fmt.Sprintf("send %d %s %d %d %d", a, dest, tk, amount, fee), res
+	return fmt.Sprintf("send %d %s %d %d %d", a, q.e.canon(dest), tk, amount, fee), res
 }
 
 func (q *seq) opCancel(id uint64, who int) (string, string) {
@@ -544,7 +559,7 @@ func (q *seq) opReqBatch(tk int, minFee, baseFee int64, fr string) (string, stri
 		}
 		return r.BatchNonce, nil
 	})
-	return fmt.Sprintf("reqbatch %d %d %d %s", tk, minFee, baseFee, fr), res
+	return fmt.Sprintf("reqbatch %d %d %d %s", tk, minFee, baseFee, q.e.canon(fr)), res
 }
 
 func (q *seq) opBridgeCall(a, refund int, to, data, memo string, coins [][2]int64) (string, string) {
@@ -567,7 +582,7 @@ func (q *seq) opBridgeCall(a, refund int, to, data, memo string, coins [][2]int6
 		_, err := q.e.ms.BridgeCall(ctx, msg)
 		return before, err
 	})
-	return fmt.Sprintf("bcall %d %d %s %s %s %s", a, refund, to, dash(data), dash(memo), dash(strings.Join(parts, ","))), res
+	return fmt.Sprintf("bcall %d %d %s %s %s %s", a, refund, q.e.canon(to), dash(data), dash(memo), dash(strings.Join(parts, ","))), res
 }
 
 // evmCall runs a real EVM message from the actor's EVM address to the crosschain precompile (committed only on success).
@@ -604,7 +619,7 @@ func (q *seq) opPSend(a int, dest string, tk int, amount, fee int64) (string, st
 	if strings.HasPrefix(res, "ok") {
 		q.evmTouched = true
 	}
-	return fmt.Sprintf("psend %d %s %d %d %d", a, dest, tk, amount, fee), res
+	return fmt.Sprintf("psend %d %s %d %d %d", a, q.e.canon(dest), tk, amount, fee), res
 }
 
 // pcall: the bridgeCall precompile with ERC-20 contracts and amounts in the caller's order
@@ -626,7 +641,7 @@ func (q *seq) opPCall(a, refund int, to, data, memo string, coins [][2]int64) (s
 	if strings.HasPrefix(res, "ok") {
 		q.evmTouched = true
 	}
-	return fmt.Sprintf("pcall %d %d %s %s %s %s", a, refund, to, dash(data), dash(memo), dash(strings.Join(parts, ","))), res
+	return fmt.Sprintf("pcall %d %d %s %s %s %s", a, refund, q.e.canon(to), dash(data), dash(memo), dash(strings.Join(parts, ","))), res
 }
 
 // pcancel: the cancelSendToExternal precompile (same keeper entry point as MsgCancelSendToExternal)
@@ -637,6 +652,32 @@ func (q *seq) opPCancel(id uint64, who int) (string, string) {
 	}
 	res := q.evmCall(who, data, func() uint64 { return 0 })
 	return fmt.Sprintf("pcancel %d %d", id, who), res
+}
+
+// pincfee: the increaseBridgeFee precompile with the token's ERC-20 contract (the added fee leaves the caller's ERC-20 balance)
+func (q *seq) opPIncFee(id uint64, who, tk int, add int64) (string, string) {
+	data, err := types.GetABI().Pack("increaseBridgeFee", q.e.chain, new(big.Int).SetUint64(id), q.erc20Of(tk), big.NewInt(add))
+	if err != nil {
+		panic(err)
+	}
+	res := q.evmCall(who, data, func() uint64 { return 0 })
+	if strings.HasPrefix(res, "ok") {
+		q.evmTouched = true
+	}
+	return fmt.Sprintf("pincfee %d %d %d %d", id, who, tk, add), res
+}
+
+// pexec: the executeClaim precompile (same keeper entry point as ExecuteClaim), called by any account
+func (q *seq) opPExec(n uint64, who int) (string, string) {
+	data, err := types.GetABI().Pack("executeClaim", q.e.chain, new(big.Int).SetUint64(n))
+	if err != nil {
+		panic(err)
+	}
+	res := q.evmCall(who, data, func() uint64 { return 0 })
+	if strings.HasPrefix(res, "ok") {
+		q.evmTouched = true
+	}
+	return fmt.Sprintf("pexec %d %d", n, who), res
 }
 
 func (q *seq) claim(c types.ExternalClaim) string {
@@ -1099,6 +1140,27 @@ func (q *seq) monitor(op, res string, pre, post snap) {
 			out.Violate("C05 origin marks: a from-message mark exists for a bridge call that is not stored, after " + w[0])
 		}
 	}
+	// Props.C05.origin_marks_are_origin on the real state: an entry still queued / stored has the mark iff its origin says so
+	relNow := map[int]bool{}
+	for _, id := range post.rel {
+		relNow[id] = true
+	}
+	for id := range place {
+		if relNow[id] != q.relEver[id] && !(w[0] == "send" && okRes && res == fmt.Sprintf("ok:%d", id)) {
+			out.Violate(fmt.Sprintf("C05 origin marks: a queued transfer created through the crossChain precompile: %v has outgoing-transfer relation: %v after %s (the relation must stay with the entry through batching, batch cancellation and fee increases, and only with it)", q.relEver[id], relNow[id], w[0]))
+			break
+		}
+	}
+	markNow := map[int]bool{}
+	for _, n := range post.fromMsg {
+		markNow[n] = true
+	}
+	for _, c := range post.calls {
+		if markNow[c.nonce] != q.msgEver[c.nonce] && !(w[0] == "bcall" && okRes && res == fmt.Sprintf("ok:%d", c.nonce)) {
+			out.Violate(fmt.Sprintf("C05 origin marks: a stored outgoing bridge call created by MsgBridgeCall: %v is marked from-message: %v after %s", q.msgEver[c.nonce], markNow[c.nonce], w[0]))
+			break
+		}
+	}
 	if !okRes {
 		// failed message: nothing changes
 		if q.line("", pre) != q.line("", post) {
@@ -1188,6 +1250,17 @@ func (q *seq) monitor(op, res string, pre, post snap) {
 			out.Violate("C05 increase fee exact: fee of the transfer did not grow by exactly the added fee")
 		}
 		expect[balIdx(who, tk)] = -add
+		if evm { // through the precompile: out of the caller's ERC-20 balance
+			expectErc[balIdx(who, tk)] = -add
+			q.out.Count("scn:incfee:through-precompile")
+			if q.relEver[id] {
+				q.out.Count("scn:incfee:through-precompile:erc20-origin-entry")
+			} else {
+				q.out.Count("scn:incfee:through-precompile:message-origin-entry")
+			}
+		} else if q.relEver[id] {
+			q.out.Count("scn:incfee:by-message:erc20-origin-entry")
+		}
 	case "reqbatch":
 		n, _ := strconv.ParseUint(strings.TrimPrefix(res, "ok:"), 10, 64)
 		if n != q.lastBatch+1 {
@@ -1616,6 +1689,13 @@ func (q *seq) randomOp() {
 		case 1:
 			add = 5 * fundEach
 		}
+		if q.rng.Intn(4) == 0 { // through the increaseBridgeFee precompile, out of the caller's ERC-20 balance
+			if q.rng.Intn(15) == 0 {
+				add = ercFund + 1 // more than any ERC-20 balance, less than the total holding
+			}
+			q.do(func() (string, string) { return q.opPIncFee(id, who, tk, add) })
+			break
+		}
 		q.do(func() (string, string) { return q.opIncFee(id, who, tk, add) })
 	case r < 58: // request batch
 		q.genReqBatch(sn)
@@ -1689,6 +1769,11 @@ func (q *seq) randomOp() {
 		n := uint64(q.rng.Intn(int(q.e.k.GetLastObservedEventNonce(q.ctx)) + 2))
 		if len(sn.pend) > 0 && q.rng.Intn(10) < 8 {
 			n = sn.pend[q.rng.Intn(len(sn.pend))][0]
+		}
+		if q.rng.Intn(4) == 0 { // through the executeClaim precompile, by anybody
+			who := q.rng.Intn(nActors)
+			q.do(func() (string, string) { return q.opPExec(n, who) })
+			break
 		}
 		q.do(func() (string, string) { return q.opExec(n) })
 	case r < 97: // bridge call
@@ -1805,7 +1890,14 @@ func (q *seq) scripted(kind int) {
 	switch kind {
 	case 0: // batch size limit: more than OutgoingTxBatchSize transfers with few distinct fees
 		q.do(func() (string, string) { return q.opObsOther(1000) })
-		for i := 0; i < 104; i++ {
+		nSend := []int{99, 100, 101, 104, 104}[q.rng.Intn(5)] // OutgoingTxBatchSize - 1, exactly, + 1, well above
+		q.out.Count(fmt.Sprintf("scn:batch-size-boundary:eligible=%d", nSend))
+		for i := 0; i < nSend; i++ {
+			if i%7 == 3 {
+				a, am, fee := i%nActors, int64(10+i), hx.Pick(q.rng, feeSet)
+				q.do(func() (string, string) { return q.opPSend(a, d[0], 0, am, fee) })
+				continue
+			}
 			send(i%nActors, 0, int64(10+i), hx.Pick(q.rng, feeSet))
 		}
 		q.do(func() (string, string) { return q.opReqBatch(0, 1, 0, d[1]) })
@@ -1902,8 +1994,13 @@ func (q *seq) scripted(kind int) {
 		q.do(func() (string, string) { return q.opPSend(1, d[0], 0, 100, 3) }) // 2: batched, batch times out, cancelled
 		send(2, 0, 100, 3)                                                     // 3: message origin, same batch
 		q.do(func() (string, string) { return q.opPSend(3, d[0], 1, 50, 0) })  // 4: zero fee, executed
+		q.do(func() (string, string) { return q.opPIncFee(1, 2, 0, 2) }) // ERC-20-origin entry, fee raised by another account through the precompile
+		q.do(func() (string, string) { return q.opIncFee(2, 0, 0, 1) })  // ERC-20-origin entry, fee raised by message
+		q.do(func() (string, string) { return q.opPIncFee(3, 3, 0, 1) }) // message-origin entry, fee raised through the precompile
+		q.do(func() (string, string) { return q.opPIncFee(3, 3, 1, 1) }) // wrong token: must fail
 		q.do(func() (string, string) { return q.opCancel(1, 0) })
 		q.do(func() (string, string) { return q.opReqBatch(0, 1, 0, d[1]) })
+		q.do(func() (string, string) { return q.opPIncFee(2, 1, 0, 1) }) // batched now: must fail
 		q.do(func() (string, string) { return q.opBlock(1) })
 		send(0, 1, 10, 4)
 		q.do(func() (string, string) { return q.opReqBatch(1, 1, 0, d[1]) })
@@ -1922,7 +2019,7 @@ func (q *seq) scripted(kind int) {
 			q.do(func() (string, string) { return q.opObsResult(t-1, 3, false) })
 			q.do(func() (string, string) { return q.opExec(q.e.k.GetLastObservedEventNonce(q.ctx)) })
 			q.do(func() (string, string) { return q.opObsResult(t-1, 4, true) })
-			q.do(func() (string, string) { return q.opExec(q.e.k.GetLastObservedEventNonce(q.ctx)) })
+			q.do(func() (string, string) { return q.opPExec(q.e.k.GetLastObservedEventNonce(q.ctx), 1) })
 			q.do(func() (string, string) { return q.opObsOther(t) })
 		}
 		sn = q.snapshot()
@@ -1932,6 +2029,27 @@ func (q *seq) scripted(kind int) {
 		}
 		q.do(func() (string, string) { return q.opPCancel(2, 1) })
 		q.do(func() (string, string) { return q.opPCancel(3, 2) })
+	case 8: // the timeout period shrinks between two batches of one token: the LATER batch (higher nonce) has the EARLIER timeout; the
+		// external chain executes them in nonce order, the first one below the second one's timeout
+		q.do(func() (string, string) { return q.opParams(1000, 3000, 43200000, 3600001) })
+		q.do(func() (string, string) { return q.opObsOther(uint64(100 + q.rng.Intn(900))) })
+		tk := q.rng.Intn(nTokens)
+		send(0, tk, 100, 2)
+		send(1, tk, 100, 3)
+		q.do(func() (string, string) { return q.opReqBatch(tk, 1, 0, d[1]) })
+		q.do(func() (string, string) { return q.opBlock(1) })
+		q.do(func() (string, string) { return q.opParams(1000, 3000, 60000, 3600001) })
+		send(2, tk, 100, 5)
+		send(3, tk, 100, 6)
+		q.do(func() (string, string) { return q.opReqBatch(tk, 1, 0, d[1]) })
+		if sn := q.snapshot(); len(sn.batches) == 2 && sn.batches[1].timeout < sn.batches[0].timeout {
+			q.out.Count("scn:later-batch-of-the-token-has-the-earlier-timeout")
+			b1, b2 := sn.batches[0], sn.batches[1]
+			h := max(q.extMaxH, 1)
+			q.do(func() (string, string) { return q.opObsBatch(h, b1.token, uint64(b1.nonce)) })
+			ah := q.admissibleHeight(b2.timeout)
+			q.do(func() (string, string) { return q.opObsBatch(ah, b2.token, uint64(b2.nonce)) })
+		}
 	case 7: // genesis export / import in the middle of a history (only with C05_GENESIS=1)
 		q.do(func() (string, string) { return q.opObsOther(uint64(300 + q.rng.Intn(300))) })
 		send(0, 0, 100, 2)
@@ -2008,6 +2126,11 @@ func (q *seq) addr(w string) string {
 	if len(w) == 2 && w[0] == 'D' && w[1] >= '0' && w[1] <= '2' {
 		return q.e.dests[w[1]-'0']
 	}
+	if q.e.chain == "tron" && len(w) == 42 && strings.HasPrefix(w, "0x") { // canonical form in a replay file -> the chain's own form
+		if bz, err := hex.DecodeString(w[2:]); err == nil {
+			return types.ExternalAddrToStr(q.e.chain, bz)
+		}
+	}
 	return w
 }
 
@@ -2038,6 +2161,10 @@ func (q *seq) replayLine(line string) {
 		q.do(func() (string, string) { return q.opPSend(int(num(1)), q.addr(w[2]), int(num(3)), num(4), num(5)) })
 	case w[0] == "incfee" && len(w) == 5:
 		q.do(func() (string, string) { return q.opIncFee(uint64(num(1)), int(num(2)), int(num(3)), num(4)) })
+	case w[0] == "pincfee" && len(w) == 5:
+		q.do(func() (string, string) { return q.opPIncFee(uint64(num(1)), int(num(2)), int(num(3)), num(4)) })
+	case w[0] == "pexec" && len(w) == 3:
+		q.do(func() (string, string) { return q.opPExec(uint64(num(1)), int(num(2))) })
 	case w[0] == "reqbatch" && len(w) == 5:
 		q.do(func() (string, string) { return q.opReqBatch(int(num(1)), num(2), num(3), q.addr(w[4])) })
 	case (w[0] == "bcall" || w[0] == "pcall") && len(w) == 7:
@@ -2173,7 +2300,7 @@ func TestC05(t *testing.T) {
 	defer out.Close("correspondence: real eth/bsc crosschain keepers (message servers in a tx cache context; observation through MsgClaim->Attest->TryAttestation with one oracle; ExecuteClaim; the keeper's real EndBlocker on every block op) vs Lean model, full state compared after every op: result, id counters, pool IN STORE ITERATION ORDER, batches with transfers, bridge calls, pending results, observed heights, balances of 4 actors x 3 tokens, and the admissibility verdict of the external-chain ghost (Lean `admissible` vs the harness' own); monitors on real state: partition, fresh ids, settled once, executed-never-refunded, refund amounts and recipients, per-token conservation, cancel only by sender, fee increase exact, pick = fee-descending prefix, cancelled batch restores pool, nothing leaves a batch/the store except at an observation, release only at observed height >= timeout, an execution cancels only what it supersedes, nothing batched before an observation, every event the bridge contract can produce finds its record (external-chain ghost from FxBridgeLogic.sol rules). non-trivial = distinct final-state shapes")
 
 	s := hx.NewSuite(t, 1)
-	envs := []*env{setupChain(t, s, "eth", s.App.EthKeeper), setupChain(t, s, "bsc", s.App.BscKeeper)}
+	envs := []*env{setupChain(t, s, "eth", s.App.EthKeeper), setupChain(t, s, "bsc", s.App.BscKeeper), setupChain(t, s, "tron", s.App.TronKeeper)}
 	for _, e := range envs {
 		e.base = s.Ctx
 	}
@@ -2190,11 +2317,12 @@ func TestC05(t *testing.T) {
 		e := envs[i%len(envs)]
 		script := -1
 		switch {
-		case i < 14:
-			script = i % 7
+		case i < 24:
+			script = []int{0, 1, 2, 3, 4, 5, 6, 8}[i%8]
 		case i%9 == 0:
-			script = 1 + rng.Intn(6)
+			script = []int{1, 2, 3, 4, 5, 6, 8}[rng.Intn(7)]
 		}
+		out.Count("chain:" + e.chain)
 		runSeq(e, out, rng, i, nOps, script)
 	}
 	if genesisOn() {
@@ -2202,5 +2330,5 @@ func TestC05(t *testing.T) {
 			runSeq(envs[i%len(envs)], out, rng, n+i, nOps, 7)
 		}
 	}
-	out.Stats.Extra["chains"] = []string{"eth", "bsc"}
+	out.Stats.Extra["chains"] = []string{"eth", "bsc", "tron"}
 }
